@@ -63,3 +63,6 @@ func (r *Run) ScopeHandle(i int) *ScopeH {
 	}
 	return r.Scopes[i]
 }
+
+// AncestorOrSelf reports whether scope a is s or an ancestor of s.
+func (r *Run) AncestorOrSelf(a, s int) bool { return r.ancestorOrSelf(a, s) }
